@@ -42,3 +42,129 @@ CHECKS["C20"] = {
         {"name": "c20-beta-batchrelease", "pkg": "p20", "test": "TestC20BetaBatchRelease", "quick": rp(40000, 8), "thorough": rp(800000, 16, timeout=1500)},
     ],
 }
+
+
+# ---------------------------------------------------------------------------------------------
+# Component checks built per package: each package ships CONFIG_SNIPPET.py (a dict in the format
+# above and/or named sub-check dicts); they are loaded here so the package stays the single source.
+import os, re
+
+_HERE = os.path.dirname(os.path.abspath(__file__))
+
+def _load_snippet(pkg):
+    path = os.path.join(_HERE, "harness", pkg, "CONFIG_SNIPPET.py")
+    src = open(path).read()
+    lines = src.split("\n")
+    for i, l in enumerate(lines):
+        if l.startswith("{"):
+            lines[i] = "MAIN = " + l
+            break
+        if re.match(r"^[A-Za-z_]", l):
+            break
+    ns = {"rp": rp}
+    exec("\n".join(lines), ns)
+    return ns
+
+_p08 = _load_snippet("p08")
+CHECKS["C08"] = _p08["MAIN"]
+
+_p12 = _load_snippet("p12")
+CHECKS["C12"] = _p12["MAIN"]
+
+_p13 = _load_snippet("p13")
+CHECKS["C13"] = _p13["C13"]
+
+_p14 = _load_snippet("p14")
+CHECKS["C14"] = _p14["MAIN"]
+
+_p15 = _load_snippet("p15")
+CHECKS["C15"] = _p15["MAIN"]
+
+_p17 = _load_snippet("p17")
+CHECKS["C17"] = _p17["MAIN"]
+
+_p09 = _load_snippet("p09")
+_parith = _load_snippet("parith")
+
+
+# ---------------------------------------------------------------------------------------------
+# E1 closed-loop checks (harness/sim + harness/pe1 + harness/p07)
+
+E1_TRUST = ("Trusted base of every closed-loop verdict: the simulated API server (controller-runtime fake client + object tracker wrapped by simClient: "
+            "UID / creationTimestamp / generation, status subresource, no-op writes not persisted, real mutating workload webhook on every workload UPDATE, "
+            "real validating webhook on user Rollout writes, owner-reference GC, watch fan-out through the real event handlers, BatchRelease watch predicate "
+            "re-implemented) and the knob-respecting workload environment (CloneSet partition rounded up, native Deployment / ReplicaSet rolling update within "
+            "maxSurge / maxUnavailable, pods become ready, status published with lag). Time mode A (zero grace): package grace defaults are 0 through hooks, so no "
+            "wait is ever observed. Built (kind, style) pairs: CloneSet/partition and Deployment/canary; providers: none, Ingress nginx, Gateway API.")
+
+E1_ASSUMPTIONS = [
+    "Workload kinds / styles exercised in the closed loop: CloneSet partition-style and native Deployment canary-style only (StatefulSet, DaemonSet, blue-green and partition-style Deployment are covered by the component checks C01b/C07c/C11/C17 only).",
+    "Traffic providers exercised in the closed loop: none, Ingress class nginx, Gateway API HTTPRoute (mse/alb/higress and custom Lua providers by C14/C15 only).",
+    "Time mode A: defaultGracePeriodSeconds (rollout, trafficrouting controller, traffic manager) set to 0 through build-tag hooks; pause durations are 0 or manual; a non-zero RequeueAfter counts as a requested requeue.",
+    "The user approves only while the stored state is StepPaused (as kubectl-kruise rollout approve does); rollout-id is written to workload LABELS (documented place).",
+    "A write that changes nothing is not persisted and emits no event; the mutating webhook is skipped for such a request.",
+    "Known finding excluded by construction and counted: the user reverts the template to the stable version before the Rollout controller recorded the release being reverted (see known_findings.json, c07-livelock-revert-to-stable-before-release-observed).",
+]
+
+def _e1(check, test, quick=480, thorough=16000, pkg="pe1"):
+    return {"name": check, "pkg": pkg, "test": test, "quick": rp(quick, 16, timeout=900, shrinktime="60s"), "thorough": rp(thorough, 16, timeout=3000, shrinktime="300s")}
+
+def _e1_entry(title, check, test, rule_extra, nt):
+    return {
+        "level": "exploration", "engine": "E1",
+        "technique": "model-based / stateful property-based testing (rapid): generated scenarios and histories on a closed-loop simulator running the real controllers; history invariants evaluated after every API write",
+        "level_text": (title + " Decided by generated search: rapid draws a scenario (workload kind/style, replicas, 1-4 steps int/percent, pauses, provider, rollout-id, "
+                       "failure threshold) and a history of up to ~150 scheduler actions (reconcile of any pending key, any knob-permitted environment step, user actions), the real "
+                       "Rollout / BatchRelease reconcilers, webhooks, event handlers and providers run against the simulated API server, monitors judge every write (= every crash "
+                       "point prefix), then a fair completion runs to the terminal state. A violation shrinks to a minimal scenario + action list (the replay file). Sampled, not exhaustive."),
+        "level_note": E1_TRUST,
+        "rule": ("Shared E1 generator biased per property: " + rule_extra + " Non-trivial: " + nt + " Distinct by scenario JSON + the sequence of user actions."),
+        "assumptions": E1_ASSUMPTIONS,
+        "subchecks": [_e1(check, test)],
+    }
+
+CHECKS["C02"] = _e1_entry("Step gating.", "c02-gating", "TestC02Gating",
+    "user actions weighted towards pause/resume/jump/plan edit; monitor on every persisted Rollout status transition: leaving step k needs BatchRelease Ready seen for k, passage through StepTrafficRouting, approval or automatic pause; no cursor move / batchPartition raise / gateway write by a reconcile that began after spec.strategy.paused was persisted; non-sequential cursor moves need an outstanding user request; sub-state order.",
+    "reached step >= 2 and a pause, jump, plan edit or scale happened.")
+CHECKS["C03"] = _e1_entry("Traffic follows pods.", "c03-traffic-follows-pods", "TestC03TrafficFollowsPods",
+    "always a provider and >= 1 traffic step; monitors: a canary share is installed only after the step's batch was reported Ready (O1); when the step leaves StepTrafficRouting the provider reader (nginx annotations / HTTPRoute weights and generated rules) returns exactly the step's weight / match, canary Service selects the canary revision, stable Service pinned (O2); first step with traffic: stable Service pinned before the first pods are exposed (O3).",
+    "a traffic step was reached and the plan has >= 2 traffic configs, a jump, or step >= 2.")
+CHECKS["C04"] = _e1_entry("No request routed into a void.", "c04-no-void", "TestC04NoVoid",
+    "always a provider; user actions weighted towards rollback / new release / disable / delete; invariant on the whole store after every single write of every actor: a provider object routing to the canary Service implies it exists, is not being deleted and selects the canary revision; stable Service pinned to a revision while it receives traffic implies a live pod of that revision.",
+    "a release reached step >= 1 with canary Service generation on.")
+CHECKS["C04"]["subchecks"].append({"name": "c04-task-chains", "pkg": "pchains", "test": "TestC04TaskChains", "mode": "plain", "quick": rp(1, 1, timeout=120), "thorough": rp(1, 1, timeout=120)})
+CHECKS["C10"] = _e1_entry("Rollback and supersession.", "c10-cancel", "TestC10RollbackFirst",
+    "always a provider; rollback (template back to v1) or supersession (v3/v4) injected at a drawn point; cancel monitor on the write log.",
+    "a rollback or new release happened after step >= 1.")
+CHECKS["C10"]["subchecks"].append({"name": "c10-task-chains", "pkg": "pchains", "test": "TestC10TaskChains", "mode": "plain", "quick": rp(1, 1, timeout=120), "thorough": rp(1, 1, timeout=120)})
+CHECKS["C18"] = _e1_entry("Finalizers guard teardown.", "c18-rollout-finalizer", "TestC18Finalizers",
+    "deletion requested at a drawn point, controller restarts allowed; monitor: the write that removes the Rollout finalizer (or the object) must find no residue (no canary share / canary reference, no canary Service / Ingress, stable Service un-pinned, workload without in-progressing / control-info, BatchRelease gone, canary Deployment released); fair completion must end with the object gone.",
+    "the Rollout was deleted after step >= 1.")
+CHECKS["C18"]["level"] = "fault_enumeration"
+
+# C01: arithmetic (parith) + closed loop
+CHECKS["C01"] = dict(_parith["MAIN"]["C01"])
+CHECKS["C01"]["engine"] = "E3+E1"
+CHECKS["C01"]["subchecks"] = list(_parith["MAIN"]["C01"]["subchecks"]) + [_e1("c01-closed-loop", "TestC01ClosedLoop")]
+CHECKS["C01"]["assumptions"] = list(_parith["MAIN"]["C01"]["assumptions"]) + E1_ASSUMPTIONS
+CHECKS["C01"]["rule"] += (" Closed loop (c01-closed-loop): shared E1 generator with scale / plan-edit / jump weighted up and occasional 100-130 replicas; at every BatchRelease spec write by the Rollout controller "
+                          "the batches equal the Rollout's steps and batchPartition <= persisted currentStepIndex-1; at every knob write by the BatchRelease controller exposure(knob) <= planned(batches[batchPartition]) "
+                          "+ ceil(n/100) slack for percent plans on CloneSet, and exposure never decreases within an epoch (no user scale / plan edit / jump / template change in between).")
+
+# C07: liveness (E1) + arithmetic (parith) + provider fixed points (p13, p14, p15)
+CHECKS["C07"] = dict(_parith["MAIN"]["C07"])
+CHECKS["C07"]["engine"] = "E1+E2+E3"
+CHECKS["C07"]["subchecks"] = ([_e1("c07-liveness", "TestC07Liveness", pkg="p07")] + list(_parith["MAIN"]["C07"]["subchecks"]) +
+                              [_p13["C07_GATEWAY_SUBCHECK"], _p14["C07_INGRESS_SUBCHECK"]] + list(_p15["MAIN"]["for_C07"]["subchecks"]))
+CHECKS["C07"]["assumptions"] = (list(_parith["MAIN"]["C07"]["assumptions"]) + E1_ASSUMPTIONS + list(_p13["C07_GATEWAY_ASSUMPTIONS"]) + list(_p15["MAIN"]["for_C07"]["assumptions"]))
+CHECKS["C07"]["rule"] += (" Liveness (c07-liveness): shared E1 generator, any history prefix, then the deterministic fair schedule (round-robin reconcile / healthy environment step, approvals and resumes granted at once) "
+                          "must reach the terminal state within 1500+500*steps iterations; 'stuck' (nothing enabled) and budget exhaustion are violations with a signature naming where the run is parked. "
+                          "Provider fixed points (c07-fixedpoint-*): " + _p15["MAIN"]["for_C07"]["rule_fragment"])
+
+# C09: admission (p09) + reachability (E1)
+CHECKS["C09"] = dict(_p09["MAIN"])
+CHECKS["C09"]["engine"] = "E2+E1"
+CHECKS["C09"]["subchecks"] = list(_p09["MAIN"]["subchecks"]) + [_e1("c09-reachability", "TestC09Reachability")]
+CHECKS["C09"]["assumptions"] = list(_p09["MAIN"]["assumptions"]) + E1_ASSUMPTIONS
+CHECKS["C09"]["rule"] += (" Reachability (c09-reachability): shared E1 generator; the user additionally patches status.*.nextStepIndex with any of {MinInt32,-1,0,1..6,100,MaxInt32} at any time, edits steps, scales, "
+                          "disables / enables / deletes; every Reconcile, event handler and webhook call runs under recover: a panic is a violation with its stack.")
